@@ -261,7 +261,7 @@ class Curve(SplineObject):
 
         if len(v.shape) == 1: # single evaluation point
             magnitude = np.linalg.norm(w)
-            nominator = np.dot(w, a)
+            nominator = np.dot(w, da)
         else:                 # multiple evaluation points
             magnitude = np.linalg.norm( w, axis=-1)
             nominator = np.array([np.dot(w1,da1) for (w1,da1) in zip(w, da)])
